@@ -51,6 +51,9 @@ def configs(tier):
         units = out
         units.append(({"producers": list(seqs), "max_ops": 250, "window": 1.0, "fail_at": 1, "fail_cls": "runtime",
                        "line": True, "timer": False, "horizon": 30.0}, {"thread": 1 if quick else 2}, cap))
+    # non-ASCII payloads: the size that counts is the serialized request (escaped), limit 700 bytes = two raw, not two escaped
+    for seqs in (("UU",), ("uU",), ("U", "U"), ("uU", "U"), ("aU", "uU")):
+        out.append(({"producers": list(seqs), "max_ops": 250, "window": 1.0, "max_bytes": 700}, b1 if len(seqs) == 1 else b2, cap))
     # a failing call while other updates wait in the overflow queue (batch size limit): every caller is released
     for seqs in (("L", "L"), ("LL",), ("L", "Ls"), ("aL", "L")):
         for k in (1, 2):
@@ -83,7 +86,7 @@ def run(ctx):
                      "sync/async large, sync/async oversize, sync/async empty}; max_batch_operations in {1,2,250}; "
                      "size limit 400 bytes; window 1.0/0.3 s; all schedules with <=2 (quick) / <=3 (thorough) "
                      "deviations (thread choices + 'timeout fires first'); policies rtb/low/high; three configurations with a failing "
-                     "call under line-level preemption in state.py/threading.py; three configurations whose first response is "
+                     "call under line-level preemption; five configurations with non-ASCII payloads (size limit 700 bytes) in state.py/threading.py; three configurations whose first response is "
                      "paginated, with the follow-up page fetch succeeding or failing; 11 two-producer configurations with <=2 stalls of "
                      "250 ms at signalling/waiting operations plus one preemption")
     cov["explanation"] = ("each trace is an execution of the real ExecutionState.create_checkpoint / "
